@@ -50,6 +50,7 @@ fn main() {
         },
         Some("trace") => trace::check(args.get(1).map(String::as_str).unwrap_or("quick")),
         Some("dev") => dev(&args[1..]),
+        Some("digest") => digest(&args[1..]),
         Some("min") => {
             let s = std::fs::read_to_string(&args[1]).unwrap();
             let j = json::J::parse(&s).unwrap();
@@ -65,6 +66,46 @@ fn main() {
         _ => usage(),
     };
     std::process::exit(code);
+}
+
+/// Determinism self-test helper: one line per run with a digest of everything the run produced
+/// (interleaving hash, every counter, every state hash, every violation, the recorded schedule).
+/// usage: digest <props> <family> <seed> <shard> <nshards> <runs>
+fn digest(args: &[String]) -> i32 {
+    let props: Vec<u32> = args[0].split(',').map(|x| x.parse().unwrap()).collect();
+    let props = oracle::Props::of(&props);
+    let family = &args[1];
+    let seed: u64 = args[2].parse().unwrap();
+    let shard: u64 = args[3].parse().unwrap();
+    let nshards: u64 = args[4].parse().unwrap();
+    let runs: u64 = args[5].parse().unwrap();
+    let ctx = case::Ctx::new();
+    let mut i = shard;
+    while i < runs {
+        let rs = driver::run_seed(seed, family, i);
+        let (mut c, g) = case::Case::generate(family, rs, i, props);
+        let out = c.run(&ctx, props, g);
+        let mut h = rng::Hasher::default();
+        h.add(out.hash);
+        h.add(out.nontrivial as u64);
+        for (k, v) in &out.counters {
+            h.add_bytes(k.as_bytes());
+            h.add(*v);
+        }
+        for s in &out.state_hashes {
+            h.add(*s);
+        }
+        for v in &out.violations {
+            h.add_bytes(format!("{}{}{}", v.prop, v.sig, v.detail).as_bytes());
+        }
+        if let Some(v) = &out.foreign {
+            h.add_bytes(format!("{}{}{}", v.prop, v.sig, v.detail).as_bytes());
+        }
+        h.add_bytes(c.to_json().to_string().as_bytes());
+        println!("{family} {i} {:016x}", h.finish());
+        i += nshards;
+    }
+    0
 }
 
 /// Developer loop: run one family in-process, print violation signatures
